@@ -54,17 +54,19 @@ def program_source(nodes: List[Dict[str, Any]], task_deps: List[Any], task: Dict
     for ri, rep in enumerate(task.get("replacements") or []):
         # replacement dependencies (broker.dependency_overrides): same recipe, named r<k>, logged as node "r<k>"
         L.append(node_source(f"r{ri}", rep["node"]).replace(f"def nr{ri}(", f"def r{ri}("))
-    params = ["me=None", "slp=0"] + [f"d{j}=TaskiqDepends(n{j}, use_cache={bool(uc)})" for j, uc in task_deps] + ["ctx: Context = TaskiqDepends()"]
+    own_ctx = not task.get("no_task_ctx")
+    params = ["me=None", "slp=0"] + [f"d{j}=TaskiqDepends(n{j}, use_cache={bool(uc)})" for j, uc in task_deps] + (["ctx: Context = TaskiqDepends()"] if own_ctx else [])
     if task.get("box"):
         # an annotated parameter whose conversion builds a MUTABLE object from a scalar wire value ('1,2' -> model with a list):
         # every execution must get an object of its own
         params.append("box: Box = None")
-    body = ("    LOG('enter', 'task', ctx.message.task_id, ctx.message.args[0] if ctx.message.args else None, ctx.message.labels.get('who'))\n"
+    tid = "ctx.message.task_id, ctx.message.args[0] if ctx.message.args else None, ctx.message.labels.get('who')" if own_ctx else "None, me, None"
+    body = (f"    LOG('enter', 'task', {tid})\n"
             "    try:\n"
             + ("        if box is not None:\n            box.items.append(me)\n" if task.get("box") else "")
             + "        if slp:\n            await asyncio.sleep(slp)\n"
-            + ("        if box is not None:\n            LOG('box', 'task', list(box.items))\n" if task.get("box") else "") +
-            "        LOG('echo', 'task', ctx.message.task_id, ctx.message.args[0] if ctx.message.args else None, ctx.message.labels.get('who'))\n")
+            + ("        if box is not None:\n            LOG('box', 'task', list(box.items))\n" if task.get("box") else "")
+            + ("        LOG('echo', 'task', ctx.message.task_id, ctx.message.args[0] if ctx.message.args else None, ctx.message.labels.get('who'))\n" if own_ctx else ""))
     kind = task.get("kind", "ret")
     if kind == "raise":
         body += "        raise ValueError('boom')\n"
@@ -78,6 +80,11 @@ def program_source(nodes: List[Dict[str, Any]], task_deps: List[Any], task: Dict
         body += f"        await asyncio.sleep({task['cleanup']})\n"
     body += "        LOG('exit', 'task')\n"
     L.append(f"async def task({', '.join(params)}):\n" + body)
+    L.append("async def plain(me=None, slp=0, ctx: Context = TaskiqDepends()):\n"
+             "    LOG('echo', 'plain', ctx.message.task_id, ctx.message.args[0] if ctx.message.args else None, ctx.message.labels.get('who'))\n"
+             "    if slp:\n        await asyncio.sleep(slp)\n"
+             "    LOG('echo', 'plain', ctx.message.task_id, ctx.message.args[0] if ctx.message.args else None, ctx.message.labels.get('who'))\n"
+             "    return me")
     return "\n\n".join(L)
 
 
